@@ -330,6 +330,9 @@ func c37(c *Ctx) {
 			if fc.Kind == "cmp" && fc.Op == token.LSS && isF(fc.X) && isF(fc.Y) {
 				cur, tgt = fc.X, fc.Y
 			}
+			if fc.Kind == "cmp" && fc.Op == token.GTR && isF(fc.X) && isF(fc.Y) { // the mirrored spelling
+				cur, tgt = fc.Y, fc.X
+			}
 		}
 		if !c.Expect(cur != nil, app, nr, "strictly-below-target", "entries are not created under 'created < target' (a non-strict test gives every endpoint one entry too many)") {
 			return
@@ -442,8 +445,19 @@ func c37(c *Ctx) {
 		less := funcOfValue(so.Common().Args[1])
 		if c.Expect(less != nil, so, nr, "less-closure", "sort.Slice comparator is not a closure") {
 			for _, r := range returnsOf(less) {
-				b, ok := r.Results[0].(*ssa.BinOp)
-				c.Expect(ok && b.Op == token.LSS && FieldLoad(fHash)(b.X) && FieldLoad(fHash)(b.Y), r, less, "sorted-by-hash-ascending", "the ring is not sorted by ascending hash")
+				// less(i, j) is "hash of the i-th item < hash of the j-th item" (either spelling)
+				okLess := len(less.Params) == 2
+				if okLess {
+					pi, pj := less.Params[0], less.Params[1]
+					hashAt := func(p *ssa.Parameter) VM {
+						return func(v ssa.Value) bool {
+							return FieldLoad(fHash)(v) && DataDep(func(w ssa.Value) bool { return w == ssa.Value(p) })(v)
+						}
+					}
+					op, _, y, isC := cmpOriented(r.Results[0], hashAt(pi))
+					okLess = isC && op == token.LSS && hashAt(pj)(y)
+				}
+				c.Expect(okLess, r, less, "sorted-by-hash-ascending", "the ring is not sorted by ascending hash")
 			}
 		}
 		nIdx := 0
